@@ -75,8 +75,10 @@ class ActGen:
         else:
             val = r.randint(lo, hi)
         if style == "lit":
-            if r.random() < 0.15:
-                return f"({val} + 0)"
+            if r.random() < 0.35:
+                from dst.gen.constexpr import const_int_expr
+
+                return const_int_expr(r, val)
             return str(val)
         if style == "var":
             name = self.fresh("a")
@@ -116,6 +118,10 @@ class ActGen:
         if style == "lit":
             if val == int(val) and r.random() < 0.3:
                 return str(int(val))
+            if r.random() < 0.3:
+                from dst.gen.constexpr import const_float_expr
+
+                return const_float_expr(r, val)
             return repr(val)
         if style == "var":
             name = self.fresh("v")
